@@ -40,7 +40,8 @@ def bounds(tier):
 
 
 UPD = ['ND', 'NS', 'ED', 'ES', 'TP', 'PD']
-UPD_NAMES = {'ND': 'TRACE_DATA_NEWTHREAD', 'NS': 'TRACE_STRING_NEWTHREAD', 'ED': 'TRACE_DATA_EXEC', 'ES': 'TRACE_STRING_EXEC',
+UPD_MORE = ['TT']           # records that name a thread but declare nothing (used in a few extra sequences)
+UPD_NAMES = {'TT': 'TRACE_DATA_THREAD_TERMINATE', 'ND': 'TRACE_DATA_NEWTHREAD', 'NS': 'TRACE_STRING_NEWTHREAD', 'ED': 'TRACE_DATA_EXEC', 'ES': 'TRACE_STRING_EXEC',
              'TP': 'TRACE_DATA_THREAD_TERMINATE_PID', 'PD': 'PERF_THD_Data'}
 
 
@@ -74,6 +75,11 @@ def structures(tier):
             sts.append({'kind': 'process', 'nmap': nmap, 'upd': s})
     for nmap in (0, 1, 2):
         sts.append({'kind': 'process-kevents', 'nmap': nmap})
+    for nmap in (1, 2):
+        for s in (['TT'], ['TT', 'TP'], ['TT', 'ND'], ['TP', 'TT'], ['TT', 'PD']):
+            sts.append({'kind': 'process', 'nmap': nmap, 'upd': s})
+    for nmap in (0, 1, 2):
+        sts.append({'kind': 'process-callstack', 'nmap': nmap})
     for nmap, empty in ((1, 0), (2, 0), (2, 1)):
         sts.append({'kind': 'process-kevents', 'nmap': nmap, 'empty': empty})
         sts.append({'kind': 'process', 'nmap': nmap, 'upd': [], 'empty': empty})
@@ -155,6 +161,8 @@ def _single(p, ctx, cols, on, fmt):
 
 
 def run(ctx, st):
+    if st['kind'] == 'process-callstack':
+        return run_process_callstack(ctx, st)
     return {'kevent': run_kevent, 'trace': run_trace, 'callstack': run_callstack, 'colour': run_colour,
             'colour-log': run_colour_log, 'process': run_process, 'process-kevents': run_process_kevents}[st['kind']](ctx, st)
 
@@ -305,6 +313,10 @@ def _updates(ctx, st):
             w = [ctx.int('u%d_%d' % (i, j)) for j in range(4)]
             if k == 'ND':
                 ctx.assume(And(w[0] >= 10000, w[0] <= 65535, w[1] >= 100, w[1] <= 999))
+            elif k == 'TT':
+                # the terminated thread: the emitting thread itself or another one (two values: the parser keeps its
+                # per-thread names in a real dict, a free id would have to be sampled)
+                ctx.assume(Or(w[0] == TID, w[0] == 22222))
             elif k in ('ED', 'TP'):
                 ctx.assume(And(w[0] >= 100, w[0] <= 999))
             else:
@@ -402,6 +414,67 @@ def _prefix(lp, ep):
         else:
             norm.append(x)
     return norm
+
+
+def run_process_callstack(ctx, st):
+    """a user-stack sample (thread info requested, its thread-info record names a free thread) read from a dump: the
+    callstack's header names the emitting thread and the process the dump declares for it"""
+    by_id, by_name = sweep.codes()
+    threads = _thread_map(ctx, st['nmap'])
+    th = [ctx.int('thd%d' % j) for j in range(4)]
+    ctx.assume(And(th[0] >= 100, th[0] <= 999, th[1] >= 10000, th[1] <= 65535))
+    ts = 10 ** 12 + 50
+    recs = [K.pack_rec(ts, [0x9, 5, 0, 0], TID, by_name['PERF_Event'] | 1),
+            K.pack_rec(ts + 1, th, TID, by_name['PERF_THD_Data']),
+            K.pack_rec(ts + 2, [1, 1, 0, 0], TID, by_name['PERF_STK_UHdr']),
+            K.pack_rec(ts + 3, [ctx.int('frame'), 0, 0, 0], TID, by_name['PERF_STK_UData']),
+            K.pack_rec(ts + 4, [0x9, 0, 0, 0], TID, by_name['PERF_Event'] | 2)]
+    data = K.v2_file(threads, 0, recs)
+    p = _parser(ctx)
+    p.show_timestamp = False
+    p.show_tid = True
+    p.show_process = True
+    try:
+        objs = list(p.callstacks(make_stream(data)))
+        lines = [p._format_callstack(c) for c in objs]
+    except Exception as e:      # noqa
+        __import__('vxlib.symx.core', fromlist=['x']).proxy_rejected(e)
+        ctx.check('C14/process-callstack/no-error', False, '%s: %s' % (type(e).__name__, e)); ctx.reach(); return
+    for c in objs:
+        ctx.check('C14/process-callstack/callstack-belongs-to-the-emitting-thread', c.tid == TID, 'callstack tid %r' % (c.tid,))
+        if not bool(c.tid == TID):
+            ctx.reach(); return
+    decl = Declared([(t, pp, n.decode()) for t, pp, n in threads])
+    decl.apply('PERF_THD_Data', TID, th, None)
+    ex = f'{TID:>11} ' + _expected_process(ctx, decl, TID, 34)
+    ctx.check('C14/process-callstack/one-callstack', len(lines) == 1, '%d callstacks' % len(lines))
+    if lines:
+        head = lines[0].split('\n')[0] if not ctx.symbolic else None
+        if ctx.symbolic:
+            pieces = ctx.template(lines[0])
+            # header = everything before the first newline
+            hp = []
+            for x in pieces:
+                if isinstance(x, str) and '\n' in x:
+                    hp.append(x.split('\n')[0]); break
+                hp.append(x)
+            hp = [x for x in hp if x != '']
+            _require_widths(ctx, ex)
+            ok = sweep.pieces_equal(_norm(hp), _norm(ctx.template(ex)))
+        else:
+            ok = head == ex
+        ctx.check('C14/process-callstack/header-names-the-emitting-thread', ok, 'header of the callstack')
+    ctx.reach()
+
+
+def _norm(ps):
+    out = []
+    for x in ps:
+        if out and isinstance(x, str) and isinstance(out[-1], str):
+            out[-1] += x
+        else:
+            out.append(x)
+    return out
 
 
 def run_process_kevents(ctx, st):
